@@ -143,8 +143,10 @@ def delay_values(dt):
     return [0.0, dt, 2 * dt, 3 * dt, dt / 2, 1.5 * dt]
 
 
-def gen_conn(rng, dt, want_delay, conv_ok=True):
+def gen_conn(rng, dt, want_delay, conv_ok=True, force_conv=False):
     kind = rng.choice(["LinearDense"] * 4 + ["LinearDirect", "LinearLateral"] + (["Conv2D"] * 2 if conv_ok else []))
+    if force_conv:
+        kind = "Conv2D"
     # the maximum delay is also the bound update steps clamp learned delays to: keep it off the 0.1 grid (a t_delta that is
     # zero in exact arithmetic but not in binary64 would make a discrete observable depend on rounding)
     maxd = (0.31 if dt == 0.1 else 3 * dt) if want_delay else None
@@ -203,7 +205,7 @@ def per_element(rng, t, nparam, which=("post", "pre")):
     return t
 
 
-def gen_steps(rng, case, g, T, persample=None):
+def gen_steps(rng, case, g, T, persample=None, sparse=False):
     B = case["B"]
     dt = case["conn"]["dt"]
     cls = case["trainer"]["cls"]
@@ -213,6 +215,9 @@ def gen_steps(rng, case, g, T, persample=None):
         dv = [d for d in dv if abs(d / dt - round(d / dt)) < 1e-9] if dt != 0.1 else [0.0]
     ppre, ppost = rng.choice([0.1, 0.3, 0.5, 0.7]), rng.choice([0.1, 0.3, 0.5, 0.7])
     quiet_pre, quiet_post = rng.choice([0, 0, 1, 3]), rng.choice([0, 0, 1, 3])   # silent prefixes: "not spiked yet"
+    if sparse:     # few presynaptic spikes: for a long time only SOME receptive positions of an element have a t_delta
+        ppre, ppost = rng.choice([0.08, 0.15, 0.25]), rng.choice([0.3, 0.5, 0.7])
+        quiet_pre, quiet_post = 0, rng.choice([0, 0, 1])
     cur = None
     draw = rng.random() < 0.5
     persample = cls in THREE and (draw if persample is None else persample)
@@ -256,6 +261,26 @@ def gen_case(rng, cls=None, conv_ok=True):
     return case
 
 
+def gen_conv_case(rng, cls):
+    """a Conv2D cell (the one shipped geometry with more than one receptive position per parameter element; with padding
+    the border positions of an element NEVER see a presynaptic spike) with a sparse presynaptic history, non-zero learning
+    rates and an additive reduction: at the time of most updates some but not all receptive positions of an element are
+    NaN, so that the nansum over the receptive axis matters"""
+    dt = rng.choice(DTS)
+    case = {"kind": "cell", "B": rng.randint(1, 2), "conn": gen_conn(rng, dt, True, force_conv=True),
+            "trainer": gen_trainer(rng, cls)}
+    t = case["trainer"]
+    for k in [k for k in t if k.startswith("lr_")]:
+        if t[k] == 0:
+            t[k] = rng.choice([0.5, -0.5, 1.0, -0.3])
+    t["red"] = rng.choice(["sum", "mean"])
+    t.pop("types", None)
+    assign_types(rng, t)
+    g = geometry(case)
+    case["steps"] = gen_steps(rng, case, g, rng.randint(5, 12), sparse=case["conn"]["padding"] == 0 or rng.random() < 0.5)
+    return case
+
+
 DED_KEYS = ["lr_pos", "lr_neg", "tc_pos", "tc_neg", "red"]
 
 
@@ -289,7 +314,7 @@ def gen_group(rng, gid, cls=None, persample=None):
     for j in range(ncell):
         dt = rng.choice(DTS)
         want_delay = True if cls != "KernelSTDP" else rng.random() < 0.5
-        conn = gen_conn(rng, dt, want_delay, conv_ok=rng.random() < 0.5)
+        conn = gen_conn(rng, dt, want_delay, conv_ok=True)
         own = gen_trainer(rng, cls)
         flip_signs(rng, own, defaults)
         if cls in KER:
@@ -478,6 +503,7 @@ def compare_cell(case, g, impl, model):
 
 # --------------------------------------------------------------------------- direct oracle
 STATS = Counter()
+PARTIAL = Counter()     # (step, element, sample) with some but not all receptive positions having a t_delta, per trainer
 
 
 def red_apply(red, xs):
@@ -514,6 +540,12 @@ def expected_parts(case, g, k, last_pre, last_post, delays, st):
         lr_c, tc_c, lr_a, tc_a = (el(v, e) for v in hyper)
         d = 0.0 if cls == "KernelSTDP" else delays[e]
         sc, sa = [], []          # per sample: causal / anti-causal sums over the receptive field
+        if len(pairs) > 1:
+            for b in range(B):
+                seen = sum(1 for (i, o) in pairs if last_pre[b * g["npre"] + i] is not None
+                           and last_post[b * g["npost"] + o] is not None)
+                if 0 < seen < len(pairs):
+                    PARTIAL[cls] += 1
         ambiguous = False        # a branch decision within rounding of the boundary (only off the dyadic grid): not judged
         for b in range(B):
             c = a = 0.0
@@ -819,7 +851,8 @@ def run(ctx):
     rng = random.Random(ctx["seed"])
     quick = ctx["tier"] == "quick"
     STATS.clear()
-    n_single, n_group, n_pair, n_ker = (45, 56, 40, 30) if quick else (800, 800, 600, 300)
+    PARTIAL.clear()
+    n_single, n_conv, n_group, n_pair, n_ker = (28, 28, 49, 36, 30) if quick else (700, 350, 800, 600, 300)
     cases = []
     pairs = []
     gid = 0
@@ -836,6 +869,8 @@ def run(ctx):
             cases.append(c)
     for _ in range(n_single):
         cases.append(gen_case(rng))
+    for k in range(n_conv):
+        cases.append(gen_conv_case(rng, (TWO + KER + THREE)[k % 7]))      # every trainer class, several each
     for k in range(n_group):
         # every trainer class in turn, so that each of the seven is exercised with overrides in every run
         cases += gen_group(rng, gid, (TWO + KER + THREE)[k % 7], persample=bool((k // 7) % 2))   # both signal forms in turn
@@ -901,6 +936,8 @@ def run(ctx):
                 any((x >= 0) != (c["defaults"][k] >= 0) for x in (c["trainer"][k] if isinstance(c["trainer"][k], list)
                                                                     else [c["trainer"][k]]))
                 for k in c["trainer"] if k.startswith("lr_"))),
+        "partially_seen_receptive_fields_by_trainer": dict(PARTIAL),
+        "conv2d_cells_by_trainer": dict(Counter(c["trainer"]["cls"] for c in cells if c["conn"]["cls"] == "Conv2D")),
         "reward_signal_type_distribution": dict(Counter(st["signal_type"] for c in cells for st in c["steps"]
                                                         if "signal_type" in st)),
         "hyperparameter_type_distribution": dict(Counter(
